@@ -11,7 +11,7 @@ The JSON holds {"events": [...], "panel": bool}.  Events (lists):
   ["import", module]         import periodictable.<module>
   ["calc", calc, T]          a calculator call (see CALCS)
   ["init", key, T]           <module>.<function>(T), key e.g. "nsf.init", "xsf.init_spectral_lines"
-  ["new",  T]                T = PeriodicTable(T)
+  ["new",  T]                T = PeriodicTable(T); mass.init(T)   (isotopes exist only after mass.init)
   ["parse", T]               formula("Fe2O3", table=T): are all atoms atoms of T?
   ["pickle", T, atom]        pickle round trip of T.atom: restored into T?
 
@@ -217,6 +217,8 @@ def main():
                 out.append(dict(k="ok"))
             elif kind == "new":
                 tables[ev[1]] = core.PeriodicTable(ev[1])
+                from periodictable import mass
+                mass.init(tables[ev[1]])
                 out.append(dict(k="ok"))
             elif kind == "parse":
                 from periodictable import formulas
